@@ -43,6 +43,10 @@ pub enum Fault {
     ELoop,
     /// Link to a directory that is one of its own ancestors on the walked path (ReadTarget only).
     Cycle { ancestor: String },
+    /// Link to a directory with mode `000` (ReadTarget only): the target can be stat'ed but not
+    /// opened, which walkdir tries as soon as it follows the link (to look for a cycle): an error
+    /// instead of an entry — and, walkdir's doing, an error that carries no path.
+    LinkToUnreadable,
 }
 
 impl Fault {
@@ -280,7 +284,17 @@ impl Model {
                                     }),
                                 }),
                                 Ok(target) => {
-                                    if self.is_dir_node(&target) && ancestors.contains(&target) {
+                                    if matches!(self.get(&target), Some(Info { kind: Kind::Dir, mode: Some(0), .. })) {
+                                        out.push(Visit {
+                                            path: cpath,
+                                            canon: target.clone(),
+                                            is_dir: false,
+                                            is_link_file: false,
+                                            depth: depth + 1,
+                                            fault: Some(Fault::LinkToUnreadable),
+                                        });
+                                    }
+                                    else if self.is_dir_node(&target) && ancestors.contains(&target) {
                                         out.push(Visit {
                                             path: cpath,
                                             canon: target.clone(),
